@@ -11,6 +11,7 @@ FUNCTIONS = [
     {"q": _C + "_xyz_to_lonlat_rad_no_norm", "standin": {}},
     {"q": _C + "_xyz_to_lonlat_deg", "standin": {}},
 ]
+STANDINS = ["coords"]
 ASSUMPTIONS = [
     "A-TRIG: sin/cos/asin/acos/atan2/sqrt/fmod are uninterpreted with the algebraic axioms listed in trusted_base",
     "vectorised numpy conversion functions are verified for a generic element (parameters typed real): they use elementwise operations only; any indexing/reduction would make them UNDECIDED",
